@@ -375,6 +375,32 @@ def r5_module_state(repo: Repo, rep):
         rep.check(R, not bad, m.relpath, m.name, "no function of the module writes module-level containers", str(bad[:2]), str(bad[:2]))
 
 
+def r4d_points_cast_in_place(repo: Repo, rep):
+    R = rep.rule("R-C14-4d", "samplers, conditions and data sets never cast user-supplied Points to another dtype: Points.to() works IN PLACE on the object the user holds "
+                 "(device moves keep the values and are allowed)", floor=1,
+                 why="`self.points = self.points.to(torch.get_default_dtype())` silently rounds the user's float64 data: a DataCondition sharing that Points object changes its loss")
+    import re
+    n = 0
+    for name, m in repo.modules.items():
+        if not any(k in name for k in (".problem.samplers.", ".problem.conditions.", ".utils.data.")):
+            continue
+        funcs = [fi for ci in m.classes.values() for fi in ci.methods.values()]
+        for fi in funcs:
+            for c in ast.walk(fi.node):
+                if not (isinstance(c, ast.Call) and isinstance(c.func, ast.Attribute) and c.func.attr in ("to", "type", "float", "double", "half")):
+                    continue
+                recv = dump(c.func.value)
+                if not re.search(r"(^|\.)(\w*points\w*)$", recv):
+                    continue  # receivers that hold Points by the naming of the package (self.points, points, data_points[i], ...)
+                n += 1
+                rep.saw(fi)
+                args = [dump(a) for a in c.args] + [dump(k.value) for k in c.keywords if k.arg in ("dtype", None)]
+                casting = c.func.attr in ("float", "double", "half", "type") or any("dtype" in a or re.search(r"torch\.(float|double|half|bfloat|int|long)", a) for a in args)
+                rep.check(R, not casting, fi.site(c), fi.fq, "a device move only", f"dtype cast: {dump(c)[:70]}", f"{fi.name}: {dump(c)[:60]}")
+    if n == 0:
+        rep.undecided(R, "src/torchphysics", "-", ".to(..) calls on stored Points", "none found")
+
+
 def run(repo: Repo, rep):
     from .c04 import r6_track  # evaluating a condition marks only its own coordinate copies as differentiable, never the (shared, cached) points of the sampler
     r6_track(repo, rep)
@@ -385,6 +411,7 @@ def run(repo: Repo, rep):
     r3_periodic(repo, rep)
     r4_forward_and_ctor_calls(repo, rep)
     r4b_containers_copied(repo, rep)
+    r4d_points_cast_in_place(repo, rep)
     r4c_no_process_wide_switch(repo, rep)
     r5_module_state(repo, rep)
     from .c13 import r5_copy_on_partial, r6_no_alias  # calling a data function must not write the shared coordinate mapping / wrapper state
@@ -398,6 +425,8 @@ def run(repo: Repo, rep):
     r4_branch_cache(repo, rep)
     from .c17 import r3_necessary_variables  # conditions share base domains: building `plate - hole(t)` for one condition must not write the hole's variables into `plate`
     r3_necessary_variables(repo, rep)
+    from .c16 import r2_shuffle_coupling  # data sets shuffle copies: the user's tensors (shared with other conditions / loaders) keep their order
+    r2_shuffle_coupling(repo, rep)
 
 
 _C = "src/torchphysics/problem/conditions/condition.py"
